@@ -378,8 +378,8 @@ def none_job(ck, prog, natbin, quick):
     native.close()
 
 
-def main():
-    ck = Check("C12")
+def prepare(ck):
+    """configure `ck` and return the list of jobs of this property's exploration"""
     ck.crate = "hconv"
     quick = ck.tier == "quick"
     targets = ["OpqH", "OpqM"] if quick else TARGETS
@@ -397,7 +397,12 @@ def main():
             ck.programs.add("%s<%s>" % (w, t))
             jobs.append(lambda sub, w=w, t=t: pair_job(sub, prog, natbin, w, t, quick))
     jobs.append(lambda sub: none_job(sub, prog, natbin, quick))
-    ck.run_jobs(jobs)
+    return jobs
+
+
+def main():
+    ck = Check("C12")
+    ck.run_jobs(prepare(ck))
     ck.require_reached(["ok", "err", "form:0", "form:1", "form:2", "none:some", "none:none"])
     ck.finish()
 
